@@ -466,8 +466,7 @@ theorem Ty.trunc (base : Nat) : ∀ (t : Ty), t.wf = true → ∀ v, t.wt v = tr
       simp only [Ty.wf, Bool.and_eq_true] at hw
       by_cases hz : mt.zero = true
       · simp only [hz, if_true, Bool.and_eq_true, Bool.not_eq_true'] at hw
-        have hne : mt.isEnum = false := hw.1.2.1
-        have hzc : (Ty.adt mt vs).isZC = true := by simp [Ty.isZC, hz, hw.1.2.2]
+        have hzc : (Ty.adt mt vs).isZC = true := by simp [Ty.isZC, hz, hw.1.2.1]
         cases v with
         | record fs =>
           have hrt := Ty.memRT (.adt mt vs) hzc hw' (.record fs) hwt
@@ -475,7 +474,12 @@ theorem Ty.trunc (base : Nat) : ∀ (t : Ty), t.wf = true → ∀ v, t.wt v = tr
           · rw [Ty.decFull_adt_zero _ mt vs _ pos hz]; exact zero_prefix_full (.adt mt vs) _ hrt.1 pos q h
           · rw [Ty.decFull_adt_zero _ mt vs _ pos hz]; exact zero_prefix_slice base (.adt mt vs) _ hrt.1 pos q h
           · rw [Ty.decEps_adt_zero base mt vs _ pos hz]; exact zero_prefix_eps base (.adt mt vs) _ hrt.1 pos q h
-        | variant i fs => simp [Ty.wt, hne] at hwt
+        | variant i fs =>
+          have hrt := Ty.memRT (.adt mt vs) hzc hw' (.variant i fs) hwt
+          refine ⟨?_, ?_, ?_⟩ <;> intro pos q h <;> rw [Ty.enc_adt_zero_variant mt vs i fs pos hz] at h
+          · rw [Ty.decFull_adt_zero _ mt vs _ pos hz]; exact zero_prefix_full (.adt mt vs) _ hrt.1 pos q h
+          · rw [Ty.decFull_adt_zero _ mt vs _ pos hz]; exact zero_prefix_slice base (.adt mt vs) _ hrt.1 pos q h
+          · rw [Ty.decEps_adt_zero base mt vs _ pos hz]; exact zero_prefix_eps base (.adt mt vs) _ hrt.1 pos q h
         | _ => simp [Ty.wt] at hwt
       · simp only [hz, if_false, Bool.false_eq_true] at hw
         have hzf : mt.zero = false := by simpa using hz
